@@ -238,13 +238,16 @@ def unDirty (d : List (Nat × Int)) (a : Nat) : List (Nat × Int) :=
   let c := (AList.find? d a).getD 0 - 1
   if c = 0 then AList.erase d a else AList.set d a c
 
-/-- `journal.Revert(statedb, snapshot)`: entries from the end down to `idx` -/
+/-- reverting a list of entries, newest first: the part of `journal.Revert` that touches the StateDB itself -/
+def revertEntries (s : S) (es : List Entry) : S := es.foldl revertEntry s
+
+/-- `journal.Revert(statedb, snapshot)`: entries from the end down to `idx` are reverted, the dirty count of every reverted
+    entry's address is decremented (no `Revert` reads or writes the counts), the journal is truncated -/
 def revertTo (s : S) (idx : Nat) : S :=
   let tail := (s.journal.drop idx).reverse
-  let s1 := tail.foldl (fun acc e =>
-    let acc1 := revertEntry acc e
-    { acc1 with dirties := match e.dirtied with | some a => unDirty acc1.dirties a | none => acc1.dirties }) s
-  { s1 with journal := s.journal.take idx }
+  { (revertEntries s tail) with
+    dirties := tail.foldl (fun d e => match e.dirtied with | some a => unDirty d a | none => d) s.dirties,
+    journal := s.journal.take idx }
 
 /-- `RevertToSnapshot`; `none` = the id is not a valid revision (the code panics) -/
 def revertToSnapshot (s : S) (id : Nat) : Option S :=
